@@ -3,6 +3,7 @@ import numpy as np
 from .. import core, gen, rdpfam
 
 PROP_FILE = 'Knee/Props/C06.lean'
+PROP_FILES = ['Knee/Props/C06.lean', 'Knee/Props/C06B.lean']
 RULE = ('grdp / mp_grdp / min_point_rdp x 5 metrics x 2 distances x 3 orderings x thresholds (grid + global costs observed on the input: exact ties) '
         'x min_points 0..n+1. Predicate on the REAL code: result == real rdp_fixed(k*) for the least k>=2 whose real compute_global_cost (fresh cache) '
         'is accepting, all points if none; mp: rdp_fixed(max(k*, min(m,n))); multi-threshold: grdp of the largest listed threshold with >= m points, '
